@@ -820,5 +820,47 @@ class ScriptRandom(Suite):
         return run_case(case)
 
 
-SUITES = [ScriptEnum(), CloseCodeEnum(), ScriptRandom()]
+class ManyMessages(Suite):
+    """Counts beyond the moderate range: max_receive_queue of 4-600 (around 64, 128, 256, 512) and 10-700 client messages
+    (text / binary alternating, every payload distinct) all at the server before the responder accepts; the responder
+    accepts, receives every one of them with the matching receive_text / receive_data and closes.  Same monitor and
+    reference state machine: every payload arrives unchanged and in order, one accept, one close."""
+
+    name = 'many_messages'
+    exhaustive = True
+    budget = {'quick': 1, 'thorough': 1}
+    case_timeout = 120
+
+    def cases(self, tier):
+        caps = (4, 63, 64, 65, 127, 128, 129, 200, 255, 256, 257, 511, 512, 513, 600)
+        for cap in (caps if tier != 'quick' else (4, 64, 128, 129, 200, 257, 513)):
+            for n in sorted(set([10, max(cap - 1, 1), cap, cap + 1, cap + 22, cap + 150])):
+                for disc in (None, 1001):
+                    yield {'capacity': cap, 'n': n, 'disconnect': disc}
+
+    def run(self, case):
+        n = case['n']
+        client, script = [], [['accept', None, None]]
+        for i in range(n):
+            if i % 2 == 0:
+                client.append({'type': 'websocket.receive', 'text': 'msg-%04d' % i})
+                script.append(['receive_text'])
+            else:
+                client.append({'type': 'websocket.receive', 'bytes': b'bin-%04d' % i})
+                script.append(['receive_data'])
+        script.append(['close', None, None])
+        full = {'capacity': case['capacity'], 'spec': '2.3', 'target': 'routed', 'script': script, 'client': client,
+                'disconnect': case['disconnect'], 'disc_at': len(script) - 1 if case['disconnect'] is not None else None,
+                'fail_send_at': None, 'fault': None, 'mw': False, 'handler': None, 'err_code': None}
+        try:
+            run_case(full)
+        except Violation as v:
+            d = v.detail
+            raise Violation(v.kind, '%s ... %s\n  compact case=%r' % (d[:400], d[-300:], case))
+        return Info(True, ['cap:%s' % ('<128' if case['capacity'] < 128 else '<256' if case['capacity'] < 256 else '>=256'),
+                           'n>cap' if n > case['capacity'] else 'n<=cap'] + (['client_disconnect'] if case['disconnect'] else []))
+
+
+
+SUITES = [ScriptEnum(), CloseCodeEnum(), ScriptRandom(), ManyMessages()]
 KNOWN = {}
